@@ -35,6 +35,7 @@ type Finding struct {
 	Carve      string
 	CarveExpr  *Node
 	Witness    string
+	Site       string
 	Text       string
 	Seen       bool
 	CanaryOK   bool
@@ -111,6 +112,8 @@ func loadFindings(path string) ([]*Finding, error) {
 				f.Obligation = m[2]
 			case "witness":
 				f.Witness = m[2]
+			case "site":
+				f.Site = m[2]
 			}
 			line = line[len(m[0]):]
 		}
